@@ -33,7 +33,7 @@ def code_to_spec_cases(quick: bool):
         base = {"text": text, "snippets": snippets, "origin": "repo:" + name, "template": "repo", "features": [name], "families": ["repo"], "needs_snippets": False}
         if name.startswith("aas_core_meta"):
             # the real meta-model is expensive (seconds per target): one job per target so that they run in parallel
-            targets = ["java", "jsonschema", "xsd"] if quick else TARGETS
+            targets = ["jsonschema"] if quick else TARGETS
             for t in targets:
                 cases.append(dict(base, targets=[t], smoke=False))
             if not quick:
@@ -81,8 +81,12 @@ def main() -> int:
     core.write_json(cases_p, cases)
 
     # R
+    import time as _time
+
+    t_r = _time.time()
     obs_p = ck.work / "obs.json"
     ck.impl("harness.run_c02", [str(cases_p), str(obs_p), str(ck.work / "scratch"), str(nproc)], timeout=3000)
+    ck.notes.append("R phase wall %.1f s with %d workers" % (_time.time() - t_r, nproc))
     out = core.read_json(obs_p)
     obs, texts = out["obs"], out["texts"]
     harness_errors = [o for o in obs if o["kind"] == "harness_error"]
